@@ -1,5 +1,6 @@
 import WS.Spec.WriteSpec
 import WS.Props.FrameCodec
+import WS.Proofs.Writer
 /-
   C02 — Everything an endpoint emits is a conformant RFC 6455 / RFC 7692 frame stream.
 -/
@@ -15,7 +16,7 @@ theorem emit_conformant (cfg : WCfg) (ops : List WOp) (keys : List Bytes)
     (hk : KeysOK keys (runWriter cfg ops keys).length) (hc : ∀ op ∈ ops, ctlOK op)
     (hlen : ∀ f ∈ runWriter cfg ops keys, f.h.len < 2 ^ 63) :
     conformant cfg.client cfg.flate false (runWriter cfg ops keys) = true := by
-  sorry
+  exact WS.Proofs.Writer.emit_conformant cfg ops keys hwf hk hc hlen
 
 /-- every emitted frame is well formed for the codec, so the peer's parser recovers exactly the frames. -/
 theorem emit_parses (cfg : WCfg) (ops : List WOp) (keys : List Bytes)
@@ -23,37 +24,37 @@ theorem emit_parses (cfg : WCfg) (ops : List WOp) (keys : List Bytes)
     (hk : KeysOK keys (runWriter cfg ops keys).length)
     (hlen : ∀ f ∈ runWriter cfg ops keys, f.h.len < 2 ^ 63) :
     parseFrames (writerBytes cfg ops keys) = (runWriter cfg ops keys, .clean) := by
-  sorry
+  exact WS.Proofs.Writer.emit_parses cfg ops keys hwf hk hlen
 
 /-- each frame consumes the next key of the entropy stream (a fresh key per frame unless the entropy
 source repeats). -/
 theorem key_per_frame (cfg : WCfg) (hc : cfg.client = true) (ops : List WOp) (keys : List Bytes)
     (hk : KeysOK keys (runWriter cfg ops keys).length) :
     (runWriter cfg ops keys).map (fun f => f.h.key) = keys.take (runWriter cfg ops keys).length := by
-  sorry
+  exact WS.Proofs.Writer.key_per_frame cfg hc ops keys hk
 
 /-- server frames are never masked and carry no key. -/
 theorem server_unmasked (cfg : WCfg) (hc : cfg.client = false) (ops : List WOp) (keys : List Bytes) :
     ∀ f ∈ runWriter cfg ops keys, f.h.masked = false ∧ f.h.key = [] ∧ f.data = f.payload := by
-  sorry
+  exact WS.Proofs.Writer.server_unmasked cfg hc ops keys
 
 /-- the payload on the wire unmasks to the bytes the caller passed (masking happens in the write
 buffer, exactly once). -/
 theorem mkFrame_data (cfg : WCfg) (fin rsv1 : Bool) (op : Nat) (p key : Bytes) :
     (mkFrame cfg fin rsv1 op p key).data = p := by
-  sorry
+  exact WS.Proofs.Writer.mkFrame_data cfg fin rsv1 op p key
 
 /-- Close frames carry a sendable code and at most 123 reason bytes, or nothing; unsendable closes emit nothing. -/
 theorem close_frame_ok (cfg : WCfg) (code : Int) (reason : Bytes) (keys : List Bytes) :
     (∀ f ∈ (opFrames cfg (.close code reason) keys).1, closePayloadOK f.data = true ∧ f.h.opcode = opClose) ∧
     (writeClosePayload code reason = none → (opFrames cfg (.close code reason) keys).1 = []) := by
-  sorry
+  exact WS.Proofs.Writer.close_frame_ok cfg code reason keys
 
 /-- the flate decision: a message is compressed iff the extension is on and its first chunk reaches the
 effective threshold (128 with context takeover, 512 without, unless configured). -/
 theorem compress_iff (cfg : WCfg) (c : Bytes) (cs : List Bytes) :
     compresses cfg (c :: cs) = true ↔
       cfg.flate = true ∧ c.length ≥ (if cfg.threshold = 0 then (if cfg.takeover then 128 else 512) else cfg.threshold) := by
-  sorry
+  exact WS.Proofs.Writer.compress_iff cfg c cs
 
 end WS.Props.C02
